@@ -14,7 +14,7 @@ PROP = {
             "point, operation, observed value; real order by a per-relay mutex around operation+append); the extracted rv_run replays every "
             "trace: each event must be an enabled step of step_fn with the observed value (status loaded is current, chunk sent/parked/popped "
             "is the model's, CAS result, channel, flush argument) and the model's three logs must equal the bytes the real writers received; "
-            "input_distribution key traces_validated_against_impl counts the traces, trace:events the events",
+            "input_distribution key traces_validated_against_impl counts the traces, trace:events the events ; group e2e-tmux-relay: the real `trzsz -r` inside a pane of a real tmux server between the in-process client and trz/tsz (handshake parked and flushed through bypassTmuxChan to the client tty): tree identical, names, stop, status-interval restored after the relay exits",
     "trusted": ["modelled, not verified: the Go memory model is taken as sequentially consistent at the granularity of one atomic/lock/channel/buffer operation; "
                 "channel sends never block (a blocking send only removes schedules); readLine is abstracted to 'consumes some prefix of the parked bytes, "
                 "then accepts, rejects or waits' (its parsing is C03/C16); the detector is an arbitrary per-chunk rewriting (C06); "
